@@ -620,6 +620,8 @@ type e2Run struct {
 	secrets        map[string]string // secret -> session
 	secretsMu      sync.Mutex
 	lastEndedS     string
+	bodyTokens     map[string]string // token -> nickname of the session the request was authenticated as
+	bodyTokensMu   sync.Mutex
 }
 
 func (r *e2Run) count(k string, n int64) {
@@ -900,7 +902,7 @@ func (c *e2Client) life(ctx context.Context, wg *sync.WaitGroup, barrier *sync.W
 		line := "PRIVMSG #sim :" + p.token
 		if r.prop == "C15" {
 			// hostile bodies through the real POST handler: the token stays at the end of the first line
-			pre := []string{"", "a\rQUIT :injected ", "x\x00y ", strings.Repeat("A", 600) + " ", "ünï " + strings.Repeat("é", 250) + " ", "\x01ACTION ", "\r", "tab\there "}[r.choice(fmt.Sprintf("client/%d/hostile", c.idx), 8)]
+			pre := []string{"", "a\rQUIT :injected ", "x\x00y ", strings.Repeat("A", 600) + " ", "ünï " + strings.Repeat("é", 250) + " ", "\x01ACTION ", "\r", "tab\there ", strings.Repeat("\U0001F600", 120+r.choice(fmt.Sprintf("client/%d/emoji", c.idx), 8)) + " ", strings.Repeat("\u20ac", 160+r.choice(fmt.Sprintf("client/%d/euro", c.idx), 8)) + " "}[r.choice(fmt.Sprintf("client/%d/hostile", c.idx), 10)]
 			line = "PRIVMSG #sim :" + pre + p.token
 			if strings.ContainsAny(pre, "\r\x00") || len(pre) > 400 {
 				p.mangled = true // the line is cut or truncated by design; the token may not arrive
@@ -1031,6 +1033,23 @@ func (r *e2Run) attacker(ctx context.Context) {
 		k++
 		token := fmt.Sprintf("ATTACK-%d", k)
 		rctx, cancel := context.WithTimeout(ctx, 15*time.Second)
+		if other != v && r.choice("attacker/bodysession", 4) == 0 {
+			// the attacker owns a session (other's) and presents ITS secret, but the request body tries to name
+			// the victim's session: whatever is applied must be applied as the session of the URL
+			body, _ := json.Marshal(map[string]interface{}{"Data": "PRIVMSG #sim :" + token, "ClientMessageId": uint64(950000 + k),
+				"Session": map[string]uint64{"Id": v.sid}, "Id": map[string]uint64{"Id": v.sid}, "Type": 1})
+			if code, _, _, err := r.request(rctx, node, "POST", "/robustirc/v1/"+other.session+"/message", map[string]string{"X-Session-Auth": other.auth}, string(body)); err == nil && code == 200 {
+				r.bodyTokensMu.Lock()
+				if r.bodyTokens == nil {
+					r.bodyTokens = map[string]string{}
+				}
+				r.bodyTokens[token] = other.nick
+				r.bodyTokensMu.Unlock()
+				r.count("attacks_body_names_other_session", 1)
+			}
+			cancel()
+			continue
+		}
 		switch r.choice("attacker/route", 5) {
 		case 0, 1:
 			body, _ := json.Marshal(map[string]interface{}{"Data": "PRIVMSG #sim :" + token, "ClientMessageId": uint64(900000 + k)})
@@ -1710,7 +1729,7 @@ func (r *e2Run) quitter(ctx context.Context) {
 			}
 		}
 		if ok {
-			qm := []string{"bye\r\n:cl0!x@y PRIVMSG #sim :forged", "bye\nQUIT", "x\x00y", "plain", strings.Repeat("q", 700), "\r", "ünï\rcode"}[r.choice("quitter/msg", 7)]
+			qm := []string{"bye\r\n:cl0!x@y PRIVMSG #sim :forged", "bye\nQUIT", "x\x00y", "plain", strings.Repeat("q", 700), "\r", "ünï\rcode", "\r\n:cl0!x@y PRIVMSG #sim :forged first", "\nQUIT", "\x00x"}[r.choice("quitter/msg", 10)]
 			b, _ := json.Marshal(map[string]string{"Quitmessage": qm})
 			if c, _, _, e := r.request(rctx, node, "DELETE", "/robustirc/v1/"+rep.Sessionid, h, string(b)); e == nil && c == 200 {
 				r.count("hostile_quit_messages", 1)
@@ -2322,10 +2341,20 @@ func (r *e2Run) finalChecks(lastFault time.Time) {
 				r.violate("C15", "malformed-line", "malformed:"+w, "message %d.%d delivered to client %d is not one well-formed IRC line (%s): %q", m.Id.Id-prodMessageOffsetE2, m.Id.Reply, c.idx, w, trunc(m.Data, 200))
 			}
 		}
+		// C11: a request is applied as the session whose secret it carried, whatever its body says
+		r.bodyTokensMu.Lock()
+		for tok, nick := range r.bodyTokens {
+			for _, m := range refMsgs {
+				if (strings.HasSuffix(m.Data, " "+tok) || strings.HasSuffix(m.Data, ":"+tok)) && !strings.HasPrefix(m.Data, ":"+nick+"!") {
+					r.violate("C11", "unauthenticated-effect", "posted-as-another-session", "a POST authenticated as %s whose body named another session was applied as somebody else: %q", nick, trunc(m.Data, 160))
+				}
+			}
+		}
+		r.bodyTokensMu.Unlock()
 		// C11: nothing an attacker posted was applied
 		for _, tok := range r.attackTokens {
 			for _, m := range refMsgs {
-				if strings.Contains(m.Data, tok) {
+				if strings.HasSuffix(m.Data, " "+tok) || strings.HasSuffix(m.Data, ":"+tok) {
 					r.violate("C11", "unauthenticated-effect", "attack-token-delivered", "text %s posted without the session secret was delivered to client %d: %q", tok, c.idx, trunc(m.Data, 160))
 				}
 			}
